@@ -711,6 +711,52 @@ func (c *Check) oneParamPerWireParam(rule string) {
 // (b = b[step:]), or an index starting at 0, incremented by exactly step on
 // the back edge and compared with `< len(x)` at the loop head.
 func elementLoopAdvance(fn *ssa.Function, step int64) bool {
+	// a decoder without a loop of its own that hands the field to one helper
+	// the rule sets do not know: the loop is looked for there, and the helper's
+	// stride may be a parameter bound to the constant at this call
+	isStep := func(v ssa.Value) bool {
+		cst, isC := v.(*ssa.Const)
+		return isC && cst.Value != nil && cst.Int64() == step
+	}
+	hasLoop := false
+	for _, blk := range fn.Blocks {
+		if inLoop(blk) {
+			hasLoop = true
+		}
+	}
+	if !hasLoop && curProg != nil {
+		var site *ssa.Call
+		n := 0
+		ownInstrs(fn, func(in ssa.Instruction) {
+			if h := curProg.helperCallee(in); h != nil {
+				for _, blk := range h.Blocks {
+					if inLoop(blk) {
+						site = in.(*ssa.Call)
+						n++
+						break
+					}
+				}
+			}
+		})
+		if n == 1 {
+			h := site.Call.StaticCallee()
+			isStep = func(v ssa.Value) bool {
+				if cst, isC := v.(*ssa.Const); isC {
+					return cst.Value != nil && cst.Int64() == step
+				}
+				if pr, isP := v.(*ssa.Parameter); isP && pr.Parent() == h {
+					for k, q := range h.Params {
+						if q == pr && k < len(site.Call.Args) {
+							cst, isC := site.Call.Args[k].(*ssa.Const)
+							return isC && cst.Value != nil && cst.Int64() == step
+						}
+					}
+				}
+				return false
+			}
+			fn = h
+		}
+	}
 	for _, blk := range fn.Blocks {
 		if !inLoop(blk) {
 			continue
@@ -724,8 +770,8 @@ func elementLoopAdvance(fn *ssa.Function, step int64) bool {
 				if !blk.Dominates(blk.Preds[i]) {
 					continue
 				}
-				if sl, isS := e.(*ssa.Slice); isS && sl.X == ssa.Value(phi) && sl.High == nil {
-					if cst, isC := sl.Low.(*ssa.Const); isC && cst.Value != nil && cst.Int64() == step {
+				if sl, isS := e.(*ssa.Slice); isS && sl.X == ssa.Value(phi) && sl.High == nil && sl.Low != nil {
+					if isStep(sl.Low) {
 						return true
 					}
 				}
@@ -733,8 +779,7 @@ func elementLoopAdvance(fn *ssa.Function, step int64) bool {
 				if !isB || bo.Op != token.ADD || bo.X != ssa.Value(phi) {
 					continue
 				}
-				cst, isC := bo.Y.(*ssa.Const)
-				if !isC || cst.Value == nil || cst.Int64() != step {
+				if !isStep(bo.Y) {
 					continue
 				}
 				// starts at 0
